@@ -129,6 +129,7 @@ func run(c *vf.Ctx) {
 	c.Rule(fmt.Sprintf("full product N(%d values: minInt,-4..8,12,16,24,32..4096 powers of two,4097,2^31,2^31+1,2^62,maxInt) x r,p(%d values each: minInt,-2..8,2^30,maxInt/128,maxInt) x keyLen(%d values: minInt,-5..0,1,31,32,33,64,65,300) plus %d tuples around r*p=2^30 and the int-overflow guards; quick restricts p to {1,2,3,8} and keyLen to {-1,0,1,32,65,300} where N in 1024..4096 with valid r,p (a whole scrypt is computed there); thorough widens that to p in {1,2,3,8,17} with every keyLen and adds N in {8192,16384,65535,65536,65537} (valid ones with r in {1,2,8}, p in {1,2}, keyLen in {0,32,65}), r,p in {9,15,16,17}, keyLen in {2,63,96,97,1024,4097}; "+
 		"every tuple is executed on the real scrypt.Key; non-trivial = distinct RFC-valid tuples compared byte for byte with the RFC 7914 model; "+
 		"plus the overflow-product family (%d tuples: N=2^56..2^62 x r=1..256 x p{1,2}; N=2^k with r making N*r or 128*N*r equal 2^63/2^64 and r+-1; r*p and 128*r*p equal to 0, 1, 2, 3, 1024, 2^30-1 modulo 2^64 and 2^63; 256*r wrapping; keyLen{0,1,32}); "+
+		"hardening: (C) password lengths and salt lengths 2^k+{-9,-8,-1,0,1,55,56,63,64,65} for k=5..22 and key lengths 2^k+{-1,0,1,31,32,33} for k=8..22 at N=2,r=1,p=1; (A) every call (grid and hardening) hands over password/salt as private copies in sentinel-framed buffers with spare capacity, which must stay intact and are wiped before the comparison, plus password length{0,1,2,3,55,56,63,64,65,119,120,127,128,129} x salt length{0,1,2,3,51,52,59,60,61,64} at (4,2,2,40); (E) r, p, keyLen in {255,256,257}, p, keyLen in {65535,65536,65537}, N in {65536,2^17}, r=4096, p=4099; (D) every history of 3 calls over 4 valid and 4 invalid tuples: own result at every position (also after error returns), earlier keys unchanged; "+
 		"RFC-invalid tuples and tuples whose byte counts 128*N*r, 128*r*p, 256*r do not fit an int must give (nil, error); tuples whose magnitudes could allocate more than 256 MiB run in a child process under RLIMIT_AS",
 		len(Ns), len(rps), len(kls), 14*4, len(fam)))
 	c.Assume("crypto/hmac and crypto/sha256 are correct (PBKDF2 of the model is built on them)")
@@ -197,11 +198,7 @@ func run(c *vf.Ctx) {
 		}
 		for _, v := range classes {
 			pw, salt := pws[v], salts[v]
-			var key []byte
-			var err error
-			p, val, stack := vf.Protect(func() { key, err = scrypt.Key(pw, salt, t.N, t.r, t.p, t.keyLen) })
-			c.Eval(1)
-			judge(c, t, valid, outcome{panicked: p, panicVal: fmt.Sprint(val), stack: stack, key: key, keyNil: key == nil, err: err != nil}, pw, salt, sh, v)
+			judge(c, t, valid, callGuarded(c, t, pw, salt), pw, salt, sh, v)
 		}
 		if valid {
 			c.Nontrivial(t.String())
@@ -212,9 +209,143 @@ func run(c *vf.Ctx) {
 			c.Sample(map[string]any{"tuple": t.String(), "expected": "(nil, error)", "invalid": invalidPart(t)})
 		}
 	})
+	hardening(c)
 	if !c.Expired() {
 		runLimited(c, grid, large)
 	}
+}
+
+// ---------------------------------------------------------------- hardening pass
+
+// guard returns a private copy of b inside a larger buffer: 8 sentinel bytes in front, 24 sentinel
+// bytes of spare capacity behind (reachable through append on the returned slice).
+func guard(b []byte) (frame, s []byte) {
+	frame = bytes.Repeat([]byte{0xA5}, 8+len(b)+24)
+	copy(frame[8:], b)
+	return frame, frame[8 : 8+len(b)]
+}
+
+func intact(frame, orig []byte) bool {
+	for i, v := range frame {
+		if i >= 8 && i < 8+len(orig) {
+			if v != orig[i-8] {
+				return false
+			}
+		} else if v != 0xA5 {
+			return false
+		}
+	}
+	return true
+}
+
+// callGuarded runs scrypt.Key on private, sentinel-framed copies of pw and salt, reports writes to
+// them, wipes them and returns the outcome.
+func callGuarded(c *vf.Ctx, t tuple, pw, salt []byte) outcome {
+	fp, gpw := guard(pw)
+	fs, gsalt := guard(salt)
+	var key []byte
+	var err error
+	p, val, stack := vf.Protect(func() { key, err = scrypt.Key(gpw, gsalt, t.N, t.r, t.p, t.keyLen) })
+	c.Eval(1)
+	if !p && (!intact(fp, pw) || !intact(fs, salt)) {
+		c.Violation("scrypt.Key writes to the caller's password/salt buffer or its spare capacity",
+			map[string]any{"tuple": t.String(), "pwLen": len(pw), "saltLen": len(salt), "password_intact": intact(fp, pw), "salt_intact": intact(fs, salt)})
+	}
+	for i := range fp {
+		fp[i] ^= 0xFF
+	}
+	for i := range fs {
+		fs[i] ^= 0xFF
+	}
+	return outcome{panicked: p, panicVal: fmt.Sprint(val), stack: stack, key: key, keyNil: key == nil, err: err != nil}
+}
+
+func hardening(c *vf.Ctx) {
+	type job struct {
+		t      tuple
+		pl, sl int
+	}
+	var jobs []job
+	// C: long passwords / salts (HMAC key > block is pre-hashed; SHA-256 block and padding
+	// boundaries) and long keys (PBKDF2 block counter), smallest cost parameters.
+	kmax := 22
+	for k := 5; k <= kmax; k++ {
+		for _, d := range []int{-9, -8, -1, 0, 1, 55, 56, 63, 64, 65} {
+			n := 1<<uint(k) + d
+			jobs = append(jobs, job{tuple{2, 1, 1, 32}, n, 16}, job{tuple{2, 1, 1, 33}, 8, n})
+		}
+	}
+	for k := 8; k <= kmax; k++ {
+		for _, d := range []int{-1, 0, 1, 31, 32, 33} {
+			jobs = append(jobs, job{tuple{2, 1, 1, 1<<uint(k) + d}, 8, 16})
+		}
+	}
+	// A: every (password, salt) length shape 0..3 x 0..3 and the HMAC/SHA-256 boundary lengths
+	for _, pl := range []int{0, 1, 2, 3, 55, 56, 63, 64, 65, 119, 120, 127, 128, 129} {
+		for _, sl := range []int{0, 1, 2, 3, 51, 52, 59, 60, 61, 64} {
+			jobs = append(jobs, job{tuple{4, 2, 2, 40}, pl, sl})
+		}
+	}
+	// E: parameter values on each side of 2^8 and 2^16 (r, p, keyLen, N) with the other costs minimal
+	for _, v := range []int{255, 256, 257, 65535, 65536, 65537} {
+		jobs = append(jobs, job{tuple{2, 1, v, 32}, 8, 16}, job{tuple{2, 1, 1, v}, 8, 16})
+		if v < 1000 {
+			jobs = append(jobs, job{tuple{2, v, 1, 32}, 8, 16}, job{tuple{2, v, 2, 65}, 8, 16}, job{tuple{4, 3, v, 65}, 8, 16})
+		}
+	}
+	jobs = append(jobs, job{tuple{65536, 1, 1, 32}, 8, 16}, job{tuple{1 << 17, 1, 2, 64}, 8, 16}, job{tuple{2, 4096, 1, 32}, 8, 16}, job{tuple{2, 1, 4099, 32}, 8, 16})
+	maxLen := 1<<uint(kmax) + 100
+	pwSrc := vf.DetBytes(fmt.Sprintf("%d|scrypt-long-pw", c.Seed), maxLen)
+	saltSrc := vf.DetBytes(fmt.Sprintf("%d|scrypt-long-salt", c.Seed), maxLen)
+	c.ParallelFor(len(jobs), func(i int) {
+		j := jobs[i]
+		pw, salt := pwSrc[:j.pl], saltSrc[:j.sl]
+		o := callGuarded(c, j.t, pw, salt)
+		judge(c, j.t, true, o, pw, salt, [2]int{j.pl, j.sl}, -2)
+		c.Nontrivial(fmt.Sprintf("%s pw=%d salt=%d", j.t, j.pl, j.sl))
+	})
+	c.Set("hardening_jobs", len(jobs))
+
+	// D: call histories. Every sequence of 3 calls over an alphabet of valid and invalid tuples:
+	// the result at every position is the one the call gives on its own (model key or (nil, error)),
+	// also after an error return, and keys returned earlier do not change afterwards.
+	alpha := []tuple{{16, 2, 2, 48}, {2, 1, 1, 32}, {64, 1, 3, 20}, {8, 3, 1, 65}, {3, 1, 1, 32}, {16, 0, 1, 32}, {16, 1, 1 << 30, 32}, {16, 1, 1, 0}}
+	hpw, hsalt := c.Bytes("scrypt-hist-pw", 0, 9), c.Bytes("scrypt-hist-salt", 0, 17)
+	want := make([][]byte, len(alpha))
+	for i, t := range alpha {
+		if scryptref.ValidParams(int64(t.N), int64(t.r), int64(t.p), int64(t.keyLen)) {
+			want[i] = scryptref.Key(hpw, hsalt, t.N, t.r, t.p, t.keyLen)
+		}
+	}
+	n := len(alpha)
+	c.ParallelFor(n*n*n, func(h int) {
+		seq := []int{h / (n * n), h / n % n, h % n}
+		var outs, saved [][]byte
+		for pos, k := range seq {
+			t := alpha[k]
+			o := callGuarded(c, t, hpw, hsalt)
+			d := map[string]any{"history": fmt.Sprint(alpha[seq[0]], " ; ", alpha[seq[1]], " ; ", alpha[seq[2]]), "position": pos}
+			switch {
+			case o.panicked:
+				d["panic"] = o.panicVal
+				c.Violation("scrypt.Key panics in a call history", d)
+			case want[k] == nil && (!o.err || !o.keyNil):
+				c.Violation("scrypt.Key accepts invalid parameters at a later position of a call history", d)
+			case want[k] != nil && (o.err || !bytes.Equal(o.key, want[k])):
+				d["got"], d["want"] = vf.Hex8(o.key), vf.Hex8(want[k])
+				c.Violation("scrypt.Key result depends on earlier calls (!= RFC 7914 model at a later position of a call history)", d)
+			}
+			outs, saved = append(outs, o.key), append(saved, append([]byte(nil), o.key...))
+			for q := 0; q < pos; q++ {
+				if !bytes.Equal(outs[q], saved[q]) {
+					d["earlier_position"] = q
+					c.Violation("scrypt.Key: a key returned earlier changes when a later call runs", d)
+				}
+			}
+		}
+		c.Nontrivial(fmt.Sprintf("hist/%v", seq))
+	})
+	c.Outcome("call histories checked")
 }
 
 func big64(v int64) *big.Int { return big.NewInt(v) }
@@ -399,7 +530,20 @@ func judge(c *vf.Ctx, t tuple, valid bool, o outcome, pw, salt []byte, sh [2]int
 			c.Violation("scrypt.Key returns a key of the wrong length", d)
 		} else if !bytes.Equal(o.key, want) {
 			d["got"], d["want"] = vf.Hex8(o.key), vf.Hex8(want)
-			c.Violation("scrypt.Key != RFC 7914 model", d)
+			cls := "scrypt.Key != RFC 7914 model"
+			if class == -2 { // hardening grid: name the dimension
+				switch {
+				case sh[0] > 200 || sh[1] > 200:
+					cls += " [long password/salt]"
+				case t.keyLen > 4097:
+					cls += " [long key]"
+				case t.r >= 255 || t.p >= 255 || t.N >= 65536:
+					cls += " [N, r or p around 2^8 / 2^16]"
+				default:
+					cls += " [password/salt length shapes]"
+				}
+			}
+			c.Violation(cls, d)
 		}
 		c.Outcome("valid: key")
 	}
